@@ -256,12 +256,12 @@ class TruncGauss(Target):
 
     def _ab(self, T):
         sc = self.s * math.sqrt(T)
-        return stats.norm.cdf((self.lo - self.mu) / sc), stats.norm.cdf((self.hi - self.mu) / sc), sc
+        return special.ndtr((self.lo - self.mu) / sc), special.ndtr((self.hi - self.mu) / sc), sc
 
     def draw(self, rng, T=1.0):
         a, b, sc = self._ab(T)
         u = rng.random(self.d)
-        x = self.mu + sc * stats.norm.ppf(a + u * (b - a))
+        x = self.mu + sc * special.ndtri(a + u * (b - a))
         return np.clip(x, self.lo, self.hi)
 
     def functionals(self, X, T=1.0):
